@@ -1872,6 +1872,14 @@ func (c *streamableServerConn) Write(ctx context.Context, msg jsonrpc.Message) e
 	if relatedRequest.IsValid() {
 		if streamID, ok := c.requestStreams[relatedRequest]; ok {
 			s = c.streams[streamID]
+		} else if !responseTo.IsValid() {
+			// The message was sent in the context of a request that is
+			// complete by now, so it no longer happens while handling a
+			// request: it goes to the standalone SSE stream (if there is one).
+			// This matters for the cancellation of a call that a handler made
+			// to the client: that notice is sent asynchronously, and the
+			// handler may well have returned before it is written.
+			s = c.streams[""]
 		}
 	} else {
 		// In stateless mode there will always be only one stream per connection.
